@@ -44,9 +44,9 @@ CLAIMED.update({
 
 CLAIMED.update({
     "C11": (
-        "go/ssa forward byte-class dataflow over the three literal scanners (escaping discipline per target layer) + closed-form anchors of the emitting functions",
+        "go/ssa forward byte-class dataflow over the three literal scanners (escaping discipline per target layer) + closed-form anchors of the emitting functions and of the path from the file to the scanner",
         "For every one of the 256 byte values and each literal form at once: no metacharacter of a target layer (Go string literal, fmt format, hole syntax) is copied raw, every metacharacter has a branch writing exactly that layer's escape, "
-        "escape pairs are passed in input order, brace escapes are separated, the hole name is an untransformed sub-string, bytes >= 0x80 are only raw-copied. The buffers are tied to their layers by the emission templates.",
+        "escape pairs are passed in input order, brace escapes are separated, the hole name is an untransformed sub-string, bytes >= 0x80 are only raw-copied. The buffers are tied to their layers by the emission templates, and the tokenizer is given the file content as read.",
         "Trusts Go's string-literal and fmt syntax. Does not decide bounds arithmetic of hole names nor undocumented escapes.",
         "DESIGN.md §3 C11",
     ),
@@ -99,17 +99,17 @@ CLAIMED.update({
         "abstract interpretation of the ParseState stack discipline on FoIR (PAIR: relative summaries, plus a top-down pass for the absolute scope depth at binder-registration sites), closed forms of the reset/driver functions, who-may-write inventories for global and per-scope state, construction/registration pairing for type-instance keys",
         "Bounds, for every history of definitions and files at once, what can survive between definitions: root scope/offside/type-def mode are restored at every top-level statement (all ~130 state-threading functions, callbacks discharged at binding sites); "
         "each top-level let is parsed from a reset temp/inference context; one state is folded over the files; output naming closed form and single write path; written globals and per-scope tables have frozen writer sets (declaration registration only); "
-        "type-instance keys are registered where they are built; pattern and parameter binders never land in the root scope (minimum scope depth >= 1 on every call path, callbacks bound).",
-        "Invariance of the emitted text itself is not decided (collisions in the info dictionaries, inference-state leakage through keyed entries). Rules (f), (g) and PAIR.depth were added after seeded variants showed state paths the first design did not cover.",
+        "type-instance keys are registered where they are built; pattern and parameter binders never land in the root scope (minimum scope depth >= 1 on every call path, callbacks bound); no parse state produced by a call is dropped; package-level variables holding shared mutable storage are the five inventoried ones and never escape into a value.",
+        "Invariance of the emitted text itself is not decided (collisions in the info dictionaries, inference-state leakage through keyed entries). Rules (f), (g), (e2) and PAIR.depth were added after seeded variants showed state paths the first design did not cover.",
         "DESIGN.md §3 C07",
     ),
 })
 
 CLAIMED.update({
     "C03": (
-        "closed-form (TERM) and emission-template (SHAPE) comparison of the naming/declaration/call emitters on FoIR; name-flow rule for package_info registration; structural comparison of every shipped package_info signature with go/types (FOI)",
+        "closed-form (TERM) and emission-template (SHAPE) comparison of the naming/declaration/call emitters on FoIR; name-flow rule for package_info registration; order-preservation rule for every list rebuilt by an AST/type transformer; the C15 conditions imported; structural comparison of every shipped package_info signature with go/types (FOI)",
         "The documented Go representation is produced by ~30 straight-line emitter functions; their canonical closed forms / piece sequences (literals, dynamic pieces, joins, in buffer order) are compared with the documented shapes, so the contract holds for every declaration shape and application arity at once. "
-        "All 103 shipped package_info declarations are parsed by the checker's own reading of the type grammar and agree with the Go signatures. External functions and types enter the enclosing scope only under their package-qualified names, so a user declaration is never replaced by an external one of the same short name.",
+        "All 103 shipped package_info declarations are parsed by the checker's own reading of the type grammar and agree with the Go signatures. External functions and types enter the enclosing scope only under their package-qualified names, so a user declaration is never replaced by an external one of the same short name. Fields, cases, parameters, arguments and statements keep their order through every pass (a rebuilt list is an element-wise image of the old one).",
         "Does not decide that emitted declarations compile with arbitrary client code. A rewritten emitter with another canonical form is undecided.",
         "DESIGN.md §3 C03",
     ),
@@ -121,9 +121,9 @@ CLAIMED.update({
         "DESIGN.md §3 C06",
     ),
     "C15": (
-        "closed-form (TERM) comparison of the 4-level type parser and constructors, emission templates (SHAPE) of the type printer, base-type table composed from parser name tests and printer arms, who-calls for the five syntactic positions, name-flow rule for external type registration, lexer token inventory vs. type syntax",
+        "closed-form (TERM) comparison of the 4-level type parser and constructors, emission templates (SHAPE) of the type printer, base-type table composed from parser name tests and printer arms, who-calls for the five syntactic positions, name-flow rule for external type registration, lexer token inventory vs. type syntax, sibling agreement of base-type name tables",
         "The precedence of the type sub-language is entirely in which parser each level calls and how each level builds its node, so the closed forms decide the mapping for type expressions of any depth in every position: flat arrow lists, flat tuples of []-level terms, parentheses only group, "
-        "base-type table, Name[T, U], frt.TupleN[...], func (A,B) C. External types are registered package-qualified only; no operator token fuses the '>' closing a type-argument list with what may follow it.",
+        "base-type table, Name[T, U], frt.TupleN[...], func (A,B) C. External types are registered package-qualified only; no operator token fuses the '>' closing a type-argument list with what may follow it; every copy of the base-type name table knows all five base types.",
         "Per-expression enumeration is not performed; it follows from the grammar for a correct recursive-descent reading.",
         "DESIGN.md §3 C15",
     ),
@@ -131,9 +131,9 @@ CLAIMED.update({
 
 CLAIMED.update({
     "C01": (
-        "PAIR abstract interpretation (lexical scoping), panic-default exhaustiveness of every compiler pass, closed forms / emission templates (conditionals, operand order, match dispatch), who-may-call for reordering primitives, strictness scan of emitter templates, go/types check of all shipped generated files, the C10 (equality) and C11 (literal emission) conditions imported as necessary conditions",
+        "PAIR abstract interpretation (lexical scoping), panic-default exhaustiveness of every compiler pass, closed forms / emission templates (conditionals, operand order, match dispatch), who-may-call for reordering primitives, strictness scan of emitter templates, go/types check of all shipped generated files, the conditions of C08 (grouping), C10 (equality), C11 (literal emission), C15 (type mapping), C12/C13/C14 (library) and the declaration/typing/instantiation closed forms imported as necessary conditions of this umbrella property",
         "Behavioural equality over all programs is NOT decided. Decided, each for all programs at once, are structural necessary conditions whose violation changes behaviour for some program: scopes are pushed/popped exactly around binders; all 44 never-reached type switches are exhaustive; "
-        "conditionals become frt.IfElse*/IfOnly over un-invoked function literals in order; operands are emitted once in source order and never reordered; case labels and constructors share one naming function; every shipped generated file type-checks (the four samples that did not were repaired); `=`/`<>` and string interpolation are lowered as C10/C11 require. "
+        "conditionals become frt.IfElse*/IfOnly over un-invoked function literals in order; operands are emitted once in source order and never reordered; case labels and constructors share one naming function; every shipped generated file type-checks (the four samples that did not were repaired); `=`/`<>`, string interpolation, operator grouping, type mapping and the standard library satisfy the conditions of their own properties; lists keep their order through every pass; no parse state is dropped. "
         "1 known finding (partial application re-evaluates supplied arguments).",
         "Closures, inference interaction and evaluation results are not decided; Go's left-to-right evaluation order and the frt helpers (C14) are assumed.",
         "DESIGN.md §3 C01",
@@ -161,10 +161,10 @@ CLAIMED.update({
 
 CLAIMED.update({
     "C02": (
-        "sibling-agreement rule over the four FType traversals (constructor coverage computed from the type declarations), traversal-completeness analysis (TRAV: every Expr-bearing payload component visited on every path, helpers inlined), closed forms of the numbering chain / anchor unifications / fresh instantiation, error-discipline rule for relation lists (no []UniRel result dropped), stack discipline and instance keys of the traversals' visited sets",
-        "Principality and annotation-erasure invariance over all constraint graphs are NOT decided. Decided for all programs: every FType traversal handles every component-carrying constructor (the unifier's missing record/union arms were repaired); no relation list produced by a call is discarded (found and repaired one such site); visited sets guard recursion only — removed when the guarded subtree is done and keyed by instance (found and repaired three defects); "
+        "sibling-agreement rule over the four FType traversals (constructor coverage computed from the type declarations), traversal-completeness analysis (TRAV: every Expr-bearing payload component visited on every path, helpers inlined), closed forms of the numbering chain / anchor unifications / fresh instantiation, error-discipline rule for relation lists (no []UniRel result dropped), per-instance visited-set / memo discipline of the traversals, arm-by-arm component agreement of collector and substitution, generator-use rule, closed forms of the expression typing rules and of generic instantiation, the C15 conditions imported",
+        "Principality and annotation-erasure invariance over all constraint graphs are NOT decided. Decided for all programs: every FType traversal handles every component-carrying constructor (the unifier's missing record/union arms were repaired); no relation list produced by a call is discarded (found and repaired one such site); each record/union instance is handled once per traversal and correctly — instance keys, a never-cleared visited set only where a repeated instance contributes nothing, memo tables with the placeholder discipline (found and repaired four defects, one of them introduced by my own first repair); the collector and the substitution visit the same components of every constructor (found and repaired one defect); a type-variable generator handed to a function is applied or passed on; "
         "constraint collection, type-variable collection and substitution visit every sub-expression on every path; leftover variables are numbered by first occurrence in the function type; declared/fresh result type is unified with the body and kept in the returned definition; every reference instantiates a generic function afresh.",
-        "The unifier's case analysis itself is not decided. Rule (d)'s second clause and rules (e), (f) were added after seeded variants.",
+        "The unifier's case analysis itself is not decided. Rule (d)'s second clause and rules (e), (f), (a2), (c2) were added after seeded variants. Phantom type parameters still do not compile in Go (fc never emits explicit type arguments); no rule decides that.",
         "DESIGN.md §3 C02",
     ),
 })
